@@ -130,7 +130,7 @@ class Ctx(_Reporting):
             # the incremental solver gave up (resource limit, incompleteness of an internal tactic): ask once more in a fresh solver
             reason = self.solver.reason_unknown()
             s2 = z3.Solver(); s2.set("timeout", 3 * SOLVER_TIMEOUT_MS)
-            s2.add(self.solver.assertions()); s2.add(*a)
+            s2.add(self.solver.assertions()); s2.add(*[z3.simplify(x) for x in a])
             r = s2.check()
             self.nretries = getattr(self, 'nretries', 0) + 1
             if r == z3.unknown and obligation:
@@ -372,7 +372,7 @@ class Ctx(_Reporting):
         neg = z3.Not(zexpr)
         r = self._check(neg, obligation=True)
         if self.dump is not None and len(self.dump) < 8 and r != z3.unknown:
-            s2 = z3.Solver(); s2.add(self.solver.assertions()); s2.add(neg)
+            s2 = z3.Solver(); s2.add(self.solver.assertions()); s2.add(z3.simplify(neg))     # simplify: no nullary and/or in the SMT-LIB text
             self.dump.append((s2.to_smt2(), str(r)))
         if r == z3.unsat:
             self.ndischarged += 1
